@@ -560,3 +560,397 @@ Proof.
   destruct (is_cache_recovered latest2 recp2 top2 ep2 off ep) as [pubs2 rc2].
   cbn [snd]. apply finish_cache_at_most_one.
 Qed.
+
+(* -------- C03 over arbitrary cache-empty handler scripts and raced pubs *)
+
+Lemma sub_cache_is_finish : forall lim uf filt hnd h ch off ep meta race,
+  snd (sub_cache lim uf filt hnd h ch off ep meta race) =
+  match sub_cache_tr lim uf filt hnd h ch off ep meta race with
+  | Some t => finish true (ct_rc t) (map (to_pub (fun _ => false)) (ct_pubs t)) (ct_buf t)
+                     (ct_top t) (ct_ep t) off
+  | None => RErr 100
+  end.
+Proof.
+  intros. unfold sub_cache, sub_cache_tr.
+  destruct (recover_cache lim uf filt h ch meta) as [h0 r].
+  destruct (race_pubs filt h0 ch race) as [h1 rbuf].
+  destruct r as [[[[latest recp] top] epc]|]; [|reflexivity].
+  destruct (is_cache_recovered latest recp top epc off ep) as [pubs rc].
+  destruct latest as [l|]; [reflexivity|].
+  destruct hnd as [| |ps]; try reflexivity.
+  destruct (race_pubs filt h1 ch ps) as [h2 hbuf].
+  destruct (negb rc); [|reflexivity].
+  destruct (recover_cache lim uf filt h2 ch meta) as [h3 r2].
+  destruct r2 as [[[[latest2 recp2] top2] ep2]|]; [|reflexivity].
+  destruct (is_cache_recovered latest2 recp2 top2 ep2 off ep) as [pubs2 rc2]. reflexivity.
+Qed.
+
+(* reachability is closed under steps *)
+Lemma run_snoc : forall ops h o, fst (run h (ops ++ [o])) = fst (step (fst (run h ops)) o).
+Proof.
+  unfold run. induction ops as [|x r IH]; intros h o; cbn [app run_with].
+  - cbn [fst]. destruct (step h o) as [h1 y]. reflexivity.
+  - destruct (step h x) as [h1 y]. specialize (IH h1 o).
+    destruct (run_with step h1 (r ++ [o])) as [h2 ys]. destruct (run_with step h1 r) as [h3 zs].
+    cbn [fst] in *. exact IH.
+Qed.
+
+Lemma reachable_step : forall h o, reachable h -> reachable (fst (step h o)).
+Proof.
+  intros h o (now & meta & ops & ->). exists now, meta, (ops ++ [o]). symmetry. apply run_snoc.
+Qed.
+
+Lemma race_pubs_reach : forall filt ps h ch,
+  reachable h -> reachable (fst (race_pubs filt h ch ps)).
+Proof.
+  induction ps as [|[id po] r IH]; intros h ch Hr; cbn [race_pubs fst]; auto.
+  pose proof (reachable_step h (Publish ch id po) Hr) as H1. cbn [step step_with] in H1.
+  destruct (publish h ch id po) as [h1 o]. cbn [fst] in H1.
+  specialize (IH h1 ch H1). destruct (race_pubs filt h1 ch r) as [h2 bs]. exact IH.
+Qed.
+
+Lemma race_pubs_markers : forall filt ps h ch,
+  Forall (fun q => p_filt q = filt (p_id q)) (snd (race_pubs filt h ch ps)).
+Proof.
+  induction ps as [|[id po] r IH]; intros h ch; cbn [race_pubs snd]; [constructor|].
+  destruct (publish h ch id po) as [h1 o]. specialize (IH h1 ch).
+  destruct (race_pubs filt h1 ch r) as [h2 bs]. cbn [snd] in *.
+  apply Forall_app. split; [|exact IH].
+  destruct o as [off e supp dl| | |]; try constructor.
+  destruct supp; constructor; [reflexivity|constructor].
+Qed.
+
+Lemma race_pubs_keeps_stream : forall filt ps h ch s,
+  h_streams h ch = Some s -> exists s', h_streams (fst (race_pubs filt h ch ps)) ch = Some s'.
+Proof.
+  induction ps as [|[id po] r IH]; intros h ch s Hs; cbn [race_pubs fst]; eauto.
+  pose proof (epoch_stable h (Publish ch id po) ch s Hs) as E. cbn [step step_with] in E.
+  destruct (publish h ch id po) as [h1 o]. cbn [fst] in E.
+  destruct (h_streams h1 ch) as [s1|] eqn:E1; [|destruct E; discriminate].
+  destruct (IH h1 ch s1 E1) as (s' & Hs'). destruct (race_pubs filt h1 ch r) as [h2 bs]. eauto.
+Qed.
+
+Lemma recover_cache_hub : forall lim uf filt h ch meta,
+  exists f, fst (recover_cache lim uf filt h ch meta) = fst (step h (History ch f meta)).
+Proof.
+  intros. unfold recover_cache, node_history.
+  exists (if uf then mkFilter None (rec_limit lim) true else mkFilter None 1 true).
+  set (f := if uf then _ else _).
+  assert (f_since f = None) as -> by (unfold f; destruct uf; reflexivity).
+  cbn [step step_with]. destruct (hub_get h ch f meta) as [h1 o].
+  destruct o; cbn [fst]; try reflexivity.
+  destruct uf; [destruct (find _ items)|]; reflexivity.
+Qed.
+
+(* one cache read + isCacheRecovered on a well-formed stream = the decision table *)
+Lemma read_decision : forall lim uf filt hr ch s meta off ep latest recp top epc,
+  h_streams hr ch = Some s -> wf_stream s ->
+  snd (recover_cache lim uf filt hr ch meta) = Some (latest, recp, top, epc) ->
+  top = s_top s /\ epc = s_epoch s /\
+  is_cache_recovered latest recp top epc off ep =
+  match cache_pick lim uf filt s with
+  | Some p => if same_position s off ep then ([], true) else ([p], true)
+  | None => ([], same_position s off ep)
+  end.
+Proof.
+  intros lim uf filt hr ch s meta off ep latest recp top epc Hs Hwf HR.
+  destruct (rec_limit_cases lim) as (L0 & _ & _).
+  unfold recover_cache, node_history in HR.
+  set (f := if uf then mkFilter None (rec_limit lim) true else mkFilter None 1 true) in *.
+  assert (Hf : f_since f = None /\ f_rev f = true /\ (f_limit f <> 0)%Z /\
+               f_limit f = (if uf then rec_limit lim else 1%Z)).
+  { unfold f. destruct uf; cbn [f_since f_rev f_limit]; repeat split; auto; discriminate. }
+  destruct Hf as (F1 & F2 & F3 & F4). rewrite F1 in HR.
+  pose proof (hub_get_some hr ch s f meta Hs) as HG.
+  assert (GI : get_items s f = cache_scanned lim uf s).
+  { unfold get_items, cache_scanned. rewrite F1, F2, <- F4.
+    replace (f_limit f =? 0)%Z with false by lia. unfold sget. cbn [andb].
+    replace (f_limit f =? 0)%Z with false by lia. reflexivity. }
+  rewrite GI in HG.
+  destruct (hub_get hr ch f meta) as [h1 o]. cbn [snd] in HG. subst o.
+  unfold cache_pick. set (sc := cache_scanned lim uf s) in *.
+  assert (HL : forall l, hd_error sc = Some l -> i_off l = s_top s).
+  { intros l Hl. unfold sc, cache_scanned in Hl. rewrite hd_take in Hl by (destruct uf; lia).
+    destruct Hwf as (Hlen & Hnum). rewrite Hnum in Hl.
+    destruct (map i_id (s_items s)) as [|x r] eqn:EI.
+    - cbn in Hl. discriminate.
+    - destruct (rev_number_hd (x :: r) (s_top s - N.of_nat (length (s_items s)))) as (id & Hid); [congruence|].
+      rewrite Hid in Hl. inversion Hl; subst l. cbn [i_off].
+      assert (length (x :: r) = length (s_items s)) by (rewrite <- EI; apply map_length).
+      cbn [length] in *. lia. }
+  unfold same_position.
+  destruct uf.
+  - destruct (find (fun it => negb (filt (i_id it))) sc) as [p|] eqn:EF; cbn [snd] in HR; inversion HR; subst.
+    + split; [reflexivity|]. split; [reflexivity|].
+      unfold is_cache_recovered.
+      destruct (hd_error sc) as [l|] eqn:EH; [|destruct sc; discriminate].
+      rewrite (HL l eq_refl), N.eqb_refl. cbn [andb].
+      destruct ((0 <? off) && (off =? s_top s) && (ep =? s_epoch s)); reflexivity.
+    + split; [reflexivity|]. split; [reflexivity|]. reflexivity.
+  - cbn [snd] in HR. inversion HR; subst. split; [reflexivity|]. split; [reflexivity|].
+    unfold is_cache_recovered.
+    destruct (hd_error sc) as [l|] eqn:EH; [|reflexivity].
+    rewrite (HL l eq_refl), N.eqb_refl. cbn [andb].
+    destruct ((0 <? off) && (off =? s_top s) && (ep =? s_epoch s)); reflexivity.
+Qed.
+
+Lemma recover_cache_some : forall lim uf filt hr ch s meta,
+  h_streams hr ch = Some s ->
+  exists latest recp top epc, snd (recover_cache lim uf filt hr ch meta) = Some (latest, recp, top, epc).
+Proof.
+  intros. unfold recover_cache, node_history.
+  set (f := if uf then _ else _).
+  assert (f_since f = None) as -> by (unfold f; destruct uf; reflexivity).
+  pose proof (hub_get_some hr ch s f meta H) as HG.
+  destruct (hub_get hr ch f meta) as [h1 o]. cbn [snd] in HG. subst o.
+  destruct uf; [destruct (find _ _)|]; cbn [snd]; eauto.
+Qed.
+
+Lemma recover_cache_keeps_stream : forall lim uf filt h ch s meta,
+  h_streams h ch = Some s -> exists s', h_streams (fst (recover_cache lim uf filt h ch meta)) ch = Some s'.
+Proof.
+  intros lim uf filt h ch s meta Hs.
+  destruct (recover_cache_hub lim uf filt h ch meta) as (f & ->).
+  pose proof (epoch_stable h (History ch f meta) ch s Hs) as E.
+  destruct (h_streams (fst (step h (History ch f meta))) ch); eauto. destruct E; discriminate.
+Qed.
+
+(* THE GENERAL DECISION: whatever the cache-empty handler publishes and
+   whatever races the read, the reply is [finish] (merge with the PUB/SUB
+   buffer, keep the last) applied to the decision table of ONE cache read of a
+   reachable broker state [ct_read] - the state before the subscribe, or the
+   state after the raced and the handler's publications when the handler
+   populated an empty cache and the first attempt had not recovered. *)
+Theorem cache_decision_general : forall lim uf filt hnd h ch s off ep meta race,
+  reachable h -> h_streams h ch = Some s ->
+  exists t sr,
+    sub_cache_tr lim uf filt hnd h ch off ep meta race = Some t /\
+    snd (sub_cache lim uf filt hnd h ch off ep meta race) =
+      finish true (ct_rc t) (map (to_pub (fun _ => false)) (ct_pubs t)) (ct_buf t)
+             (s_top sr) (s_epoch sr) off /\
+    reachable (ct_read t) /\ h_streams (ct_read t) ch = Some sr /\ wf_stream sr /\
+    (ct_pubs t, ct_rc t) =
+      match cache_pick lim uf filt sr with
+      | Some p => if same_position sr off ep then ([], true) else ([p], true)
+      | None => ([], same_position sr off ep)
+      end /\
+    Forall (fun q => p_filt q = filt (p_id q)) (ct_buf t).
+Proof.
+  intros lim uf filt hnd h ch s off ep meta race Hr Hs.
+  pose proof (sub_cache_is_finish lim uf filt hnd h ch off ep meta race) as EQ.
+  unfold sub_cache_tr in *.
+  pose proof (reachable_wf h Hr ch s Hs) as Hwf.
+  destruct (recover_cache_some lim uf filt h ch s meta Hs) as (latest & recp & top & epc & R1).
+  pose proof (read_decision lim uf filt h ch s meta off ep latest recp top epc Hs Hwf R1) as (T1 & E1 & D1).
+  destruct (recover_cache_hub lim uf filt h ch meta) as (f1 & HF1).
+  pose proof (reachable_step h (History ch f1 meta) Hr) as Hr0. rewrite <- HF1 in Hr0.
+  destruct (recover_cache_keeps_stream lim uf filt h ch s meta Hs) as (s0 & Hs0).
+  destruct (recover_cache lim uf filt h ch meta) as [h0 r]. cbn [fst snd] in *. subst r.
+  pose proof (race_pubs_reach filt race h0 ch Hr0) as Hr1.
+  pose proof (race_pubs_markers filt race h0 ch) as M1.
+  destruct (race_pubs_keeps_stream filt race h0 ch s0 Hs0) as (s1 & Hs1).
+  destruct (race_pubs filt h0 ch race) as [h1 rbuf]. cbn [fst snd] in *.
+  destruct (is_cache_recovered latest recp top epc off ep) as [pubs rc] eqn:EI.
+  assert (BASE : exists t sr,
+     Some (mkCtrace h pubs rc rbuf top epc) = Some t /\
+     finish true rc (map (to_pub (fun _ => false)) pubs) rbuf top epc off =
+       finish true (ct_rc t) (map (to_pub (fun _ => false)) (ct_pubs t)) (ct_buf t) (s_top sr) (s_epoch sr) off /\
+     reachable (ct_read t) /\ h_streams (ct_read t) ch = Some sr /\ wf_stream sr /\
+     (ct_pubs t, ct_rc t) = match cache_pick lim uf filt sr with
+                            | Some p => if same_position sr off ep then ([], true) else ([p], true)
+                            | None => ([], same_position sr off ep) end /\
+     Forall (fun q => p_filt q = filt (p_id q)) (ct_buf t)).
+  { exists (mkCtrace h pubs rc rbuf top epc), s. cbn [ct_read ct_pubs ct_rc ct_buf].
+    subst top epc. repeat split; auto; apply Hwf. }
+  destruct latest as [l|].
+  { destruct BASE as (t & sr & A & B & C). exists t, sr. split; [exact A|]. split; [|exact C].
+    rewrite EQ. inversion A; subst t. exact B. }
+  destruct hnd as [| |ps].
+  1,2: destruct BASE as (t & sr & A & B & C); exists t, sr; split; [exact A|]; split; [|exact C];
+       rewrite EQ; inversion A; subst t; exact B.
+  pose proof (race_pubs_reach filt ps h1 ch Hr1) as Hr2.
+  pose proof (race_pubs_markers filt ps h1 ch) as M2.
+  destruct (race_pubs_keeps_stream filt ps h1 ch s1 Hs1) as (s2 & Hs2).
+  destruct (race_pubs filt h1 ch ps) as [h2 hbuf]. cbn [fst snd] in *.
+  destruct (negb rc) eqn:ERC.
+  - pose proof (reachable_wf h2 Hr2 ch s2 Hs2) as Hwf2.
+    destruct (recover_cache_some lim uf filt h2 ch s2 meta Hs2) as (latest2 & recp2 & top2 & ep2 & R2).
+    pose proof (read_decision lim uf filt h2 ch s2 meta off ep latest2 recp2 top2 ep2 Hs2 Hwf2 R2) as (T2 & E2 & D2).
+    destruct (recover_cache lim uf filt h2 ch meta) as [h3 r2]. cbn [snd] in R2. subst r2.
+    destruct (is_cache_recovered latest2 recp2 top2 ep2 off ep) as [pubs2 rc2] eqn:EI2.
+    exists (mkCtrace h2 pubs2 rc2 (rbuf ++ hbuf) top2 ep2), s2.
+    cbn [ct_read ct_pubs ct_rc ct_buf ct_top ct_ep] in *. subst top2 ep2.
+    repeat split; auto; try apply Hwf2. apply Forall_app; auto.
+  - exists (mkCtrace h pubs rc (rbuf ++ hbuf) top epc), s.
+    cbn [ct_read ct_pubs ct_rc ct_buf ct_top ct_ep] in *. subst top epc.
+    repeat split; auto; try apply Hwf. apply Forall_app; auto.
+Qed.
+
+Lemma sorted_last_max : forall l d x, StronglySorted N.lt l -> In x l -> x <= last l d.
+Proof.
+  induction l as [|a l IH]; intros d x Hs Hin; [destruct Hin|].
+  inversion Hs; subst. destruct l as [|b l'].
+  - destruct Hin as [<-|[]]. cbn. lia.
+  - change (last (a :: b :: l') d) with (last (b :: l') d).
+    destruct Hin as [<-|Hin].
+    + rewrite Forall_forall in H2. specialize (IH d b H1 (or_introl eq_refl)).
+      specialize (H2 b (or_introl eq_refl)). lia.
+    + apply IH; auto.
+Qed.
+
+Lemma last_in : forall (A : Type) (l : list A) d, l <> [] -> In (last l d) l.
+Proof.
+  induction l as [|a l IH]; intros d H; [congruence|].
+  destruct l as [|b l']; [left; reflexivity|]. right. apply IH. congruence.
+Qed.
+
+Lemma map_last_off : forall (l : list pub) d, l <> [] -> last (map p_off l) (p_off d) = p_off (last l d).
+Proof.
+  induction l as [|a l IH]; intros d H; [congruence|].
+  destruct l as [|b l']; [reflexivity|].
+  change (map p_off (a :: b :: l')) with (p_off a :: map p_off (b :: l')).
+  change (last (p_off a :: map p_off (b :: l')) (p_off d)) with (last (map p_off (b :: l')) (p_off d)).
+  change (last (a :: b :: l') d) with (last (b :: l') d). apply IH. congruence.
+Qed.
+
+(* what [finish] delivers in cache mode: the non-marker publication with the
+   largest offset among the recovered one and the buffered ones *)
+Lemma finish_cache_delivered : forall rc rec buf top ep off p,
+  In p (res_pubs (finish true rc rec buf top ep off)) ->
+  exists q, In q (rec ++ buf) /\ p_filt q = false /\ p = of_pub q /\
+            forall q', In q' (rec ++ buf) -> p_filt q' = false -> p_off q' <= p_off q.
+Proof.
+  intros rc rec buf top ep off p. unfold finish.
+  pose proof (merge_meets_spec rec buf) as MS.
+  destruct (merge rec buf) as [[m mx] ok].
+  destruct ok; cbn [negb res_pubs]; [|intros []].
+  destruct MS as (_ & MS). specialize (MS eq_refl). destruct MS as (Hss & Hnd & Hin & Hoffs & _).
+  destruct rc; cbn [res_pubs]; [|intros []].
+  set (d := mkPub 0 false 0).
+  assert (HP : forall m', m' = match m with _ :: _ :: _ => [last m d] | _ => m end ->
+               In p (map of_pub m') -> m <> [] /\ p = of_pub (last m d)).
+  { intros m' -> H. destruct m as [|a [|b l]]; cbn [map In] in H.
+    - destruct H.
+    - destruct H as [<-|[]]. split; [congruence|reflexivity].
+    - destruct H as [<-|[]]. split; [congruence|reflexivity]. }
+  intros H. destruct (HP _ eq_refl H) as (Hne & ->).
+  pose proof (last_in pub m d Hne) as Hl. destruct (Hin _ Hl) as (Hf & Hall).
+  exists (last m d). repeat split; auto.
+  intros q' Hq' Hf'.
+  assert (In (p_off q') (map p_off m)).
+  { apply Hoffs. unfold MergeSpec.real_offs. apply in_map. apply filter_In. split; auto. rewrite Hf'. reflexivity. }
+  rewrite <- (map_last_off m d Hne). apply sorted_last_max; auto.
+Qed.
+
+Lemma finish_recovered_rc : forall cm rc rec buf top ep off,
+  is_recovered (finish cm rc rec buf top ep off) = true -> rc = true.
+Proof.
+  intros cm rc rec buf top ep off. unfold finish. destruct (merge rec buf) as [[m mx] ok].
+  destruct ok; cbn [negb is_recovered]; [|discriminate]. destruct rc; auto.
+Qed.
+
+Lemma cache_pick_visible : forall lim uf filt s p,
+  cache_pick lim uf filt s = Some p -> uf = true \/ (forall id, filt id = false) ->
+  filt (i_id p) = false /\ In p (s_items s).
+Proof.
+  intros lim uf filt s p HP Hv. unfold cache_pick, cache_scanned in HP.
+  destruct uf.
+  - pose proof (find_take_full _ _ _ _ HP) as HF. apply find_some in HF. destruct HF as (HI & HV).
+    split; [destruct (filt (i_id p)); [discriminate|reflexivity]|]. apply in_rev. exact HI.
+  - destruct Hv as [Hv|Hv]; [discriminate|]. split; [apply Hv|].
+    rewrite hd_take in HP by lia. destruct (rev (s_items s)) as [|x r] eqn:ER; [discriminate|].
+    cbn in HP. inversion HP; subst x. apply in_rev. rewrite ER. left. reflexivity.
+Qed.
+
+(* NEVER A PUBLICATION THAT IS NOT THE NEWEST VISIBLE ONE, for every handler
+   script and every raced publication: a delivered publication passes the
+   filters; it is the pick of the deciding cache read (the newest visible
+   publication scanned in the reachable state [ct_read]) or a publication that
+   reached the PUB/SUB buffer during the subscribe; and neither that pick nor
+   any visible buffered publication is newer than it. *)
+Theorem cache_delivered_general : forall lim uf filt hnd h ch s off ep meta race p,
+  reachable h -> h_streams h ch = Some s -> uf = true \/ (forall id, filt id = false) ->
+  In p (res_pubs (snd (sub_cache lim uf filt hnd h ch off ep meta race))) ->
+  exists t sr,
+    sub_cache_tr lim uf filt hnd h ch off ep meta race = Some t /\
+    reachable (ct_read t) /\ h_streams (ct_read t) ch = Some sr /\
+    filt (i_id p) = false /\
+    (cache_pick lim uf filt sr = Some p \/ exists q, In q (ct_buf t) /\ p = of_pub q) /\
+    (forall p', In p' (ct_pubs t) -> i_off p' <= i_off p) /\
+    (forall q, In q (ct_buf t) -> p_filt q = false -> p_off q <= i_off p).
+Proof.
+  intros lim uf filt hnd h ch s off ep meta race p Hr Hs Hv Hin.
+  destruct (cache_decision_general lim uf filt hnd h ch s off ep meta race Hr Hs)
+    as (t & sr & HT & HE & Hrr & Hsr & Hwf & HD & HM).
+  rewrite HE in Hin. apply finish_cache_delivered in Hin.
+  destruct Hin as (q & Hq & Hf & -> & Hmax).
+  exists t, sr. repeat split; auto.
+  - (* visible *)
+    apply in_app_or in Hq. destruct Hq as [Hq|Hq].
+    + apply in_map_iff in Hq. destruct Hq as (it & <- & Hit). cbn [of_pub to_pub p_off p_id i_id].
+      destruct (cache_pick lim uf filt sr) as [pp|] eqn:EP.
+      * destruct (same_position sr off ep); inversion HD as [[A B]]; rewrite A in Hit; [destruct Hit|destruct Hit as [<-|[]]].
+        apply (cache_pick_visible lim uf filt sr pp EP Hv).
+      * inversion HD as [[A B]]. rewrite A in Hit. destruct Hit.
+    + rewrite Forall_forall in HM. cbn [of_pub i_id]. rewrite <- (HM q Hq). exact Hf.
+  - apply in_app_or in Hq. destruct Hq as [Hq|Hq].
+    + left. apply in_map_iff in Hq. destruct Hq as (it & <- & Hit).
+      destruct (cache_pick lim uf filt sr) as [pp|] eqn:EP.
+      * destruct (same_position sr off ep); inversion HD as [[A B]]; rewrite A in Hit; [destruct Hit|destruct Hit as [<-|[]]].
+        destruct pp; reflexivity.
+      * inversion HD as [[A B]]. rewrite A in Hit. destruct Hit.
+    + right. exists q. auto.
+  - intros p' Hp'. specialize (Hmax (to_pub (fun _ => false) p')).
+    cbn [of_pub i_off to_pub p_off] in *. apply Hmax; [|reflexivity].
+    apply in_or_app. left. apply in_map. exact Hp'.
+  - intros q' Hq' Hf'. cbn [of_pub i_off]. apply Hmax; auto. apply in_or_app. right. exact Hq'.
+Qed.
+
+(* recovered=true only when, in the reachable state of the deciding read, the
+   newest publication is present or the client holds the position - for every
+   handler script and raced publication *)
+Theorem cache_recovered_only_if_general : forall lim uf filt hnd h ch s off ep meta race,
+  reachable h -> h_streams h ch = Some s ->
+  is_recovered (snd (sub_cache lim uf filt hnd h ch off ep meta race)) = true ->
+  exists t sr,
+    sub_cache_tr lim uf filt hnd h ch off ep meta race = Some t /\
+    reachable (ct_read t) /\ h_streams (ct_read t) ch = Some sr /\
+    (s_items sr <> [] \/ same_position sr off ep = true).
+Proof.
+  intros lim uf filt hnd h ch s off ep meta race Hr Hs Hrec.
+  destruct (cache_decision_general lim uf filt hnd h ch s off ep meta race Hr Hs)
+    as (t & sr & HT & HE & Hrr & Hsr & Hwf & HD & HM).
+  rewrite HE in Hrec. apply finish_recovered_rc in Hrec.
+  exists t, sr. repeat split; auto.
+  destruct (cache_pick lim uf filt sr) as [pp|] eqn:EP.
+  - left. intros E. unfold cache_pick, cache_scanned in EP. rewrite E in EP. cbn [rev] in EP.
+    rewrite take_nil in EP. destruct uf; discriminate.
+  - inversion HD as [[A B]]. right. congruence.
+Qed.
+
+(* ------------------------------------ server-side Client.Subscribe push *)
+
+Theorem srv_stream_decision : forall lim filt h ch s off ep meta,
+  h_streams h ch = Some s -> wf_stream s -> off < U64 - 1 ->
+  snd (srv_stream lim filt h ch off ep meta) =
+  if stream_cond s lim off ep then PSub off (s_epoch s) else PSub (s_top s) (s_epoch s).
+Proof.
+  intros lim filt h ch s off ep meta Hs Hwf Hoff. unfold srv_stream.
+  pose proof (stream_decision lim filt h ch s off ep false meta Hs Hwf Hoff) as D.
+  destruct (sub_stream lim filt h ch off ep false meta []) as [h1 r]. cbn [snd] in *. subst r.
+  destruct (stream_cond s lim off ep); reflexivity.
+Qed.
+
+Theorem srv_cache_decision : forall lim uf filt hnd h ch s off ep meta,
+  h_streams h ch = Some s -> wf_stream s -> hnd = HNone \/ hnd = HNo ->
+  snd (srv_cache lim uf filt hnd h ch off ep meta) =
+  match cache_pick lim uf filt s with
+  | Some _ => PSub off (s_epoch s)
+  | None => if same_position s off ep then PSub off (s_epoch s) else PSub (s_top s) (s_epoch s)
+  end.
+Proof.
+  intros lim uf filt hnd h ch s off ep meta Hs Hwf Hh. unfold srv_cache.
+  pose proof (cache_decision lim uf filt hnd h ch s off ep meta Hs Hwf Hh) as D.
+  destruct (sub_cache lim uf filt hnd h ch off ep meta []) as [h1 r]. cbn [snd] in *. subst r.
+  destruct (cache_pick lim uf filt s); destruct (same_position s off ep); reflexivity.
+Qed.
